@@ -349,6 +349,24 @@ def check_gravity(ctx, E, R, P, ekey, lats, hs, clsname):
                 ctx.evals += 1
                 ctx.fail('normal_gravity(latitude array) raises', f'{ekey} call#{rep} h={hu:g}a', f'{type(ex).__name__}: {ex}'[:160], 'an array')
     ctx.expect(bool(_np.array_equal(larr, lcopy)), 'normal_gravity leaves the latitude array as it was', ekey, larr[:3], lcopy[:3])
+    # arrays of every small number of latitudes (1 ... 5), as ndarray and as list, at two places of the grid, on the surface and above it
+    for nb in (1, 2, 3, 4, 5):
+        for off in (0, max(0, len(lats) - nb)):
+            sub = [float(x) for x in lats[off:off + nb]]
+            if len(sub) < nb:
+                continue
+            for cn, conv in (('ndarray', lambda x: _np.array(x)), ('list', lambda x: list(x))):
+                for hu in hs[:2]:
+                    try:
+                        v = _np.asarray(E.normal_gravity(conv(sub), hu * a) if hu != 0.0 else E.normal_gravity(conv(sub)), float)
+                    except TypeError:
+                        ctx.outcome(('latitude-container-refused', cn)); continue
+                    except Exception as ex:
+                        ctx.evals += 1
+                        ctx.fail('normal_gravity(short latitude array) raises', f'{ekey} N={nb} offset={off} as {cn} h={hu:g}a', f'{type(ex).__name__}: {ex}'[:160], 'N values'); continue
+                    exp = _np.array([G[(lat, hu)] for lat in lats[off:off + nb]])
+                    ok = v.shape == exp.shape and bool(_np.all(_np.abs(v - exp) <= TOL * _np.abs(exp)))
+                    ctx.expect(ok, 'normal_gravity(array of N latitudes, h) = the N scalar answers, for every small N', f'{ekey} N={nb} offset={off} as {cn} h={hu:g}a', v, exp, TOL)
     # laws that relate grid points
     for lat in lats:
         for hu in hs:
